@@ -143,3 +143,13 @@ Proof.
     replace (a*x*(a*x) + y*y) with ((a*a) * (x*x + (/ a * y + 0)*(/ a * y + 0))) by (field; lra).
     rewrite sqrt_mult_alt; [|nra]. rewrite sqrt_square; [|lra]. field. lra.
 Qed.
+
+Lemma ex_RInt_gauss_chord s x Rm :
+  ex_RInt (fun y => gauss s (sqrt (x*x + y*y))) 0 (sqrt (Rm*Rm - x*x)).
+Proof.
+  apply ex_RInt_ext with (fun y => exp (- (x*x + y*y) / s^2)).
+  { intros y _. unfold gauss. f_equal. f_equal. f_equal.
+    simpl. rewrite Rmult_1_r. rewrite sqrt_sqrt; nra. }
+  apply (ex_RInt_continuous (fun y => exp (- (x*x + y*y) / s^2))). intros z _.
+  apply (ex_derive_continuous (fun y => exp (- (x*x + y*y) / s^2))). auto_derive. exact I.
+Qed.
